@@ -54,7 +54,7 @@ SOURCES = ["content_str", "content_bytes", "text_stream", "binary_stream", "path
 
 def plan(tier, seed):
     return {
-        "cases": 640 if tier == "quick" else 16000,
+        "cases": 640 if tier == "quick" else 10000,
         "hashseeds": [0] if tier == "quick" else [0, 1, 2, 3],
         "timeout_s": 400 if tier == "quick" else 3400,
         "rule": "case = a document of the PROV-O-expressible space (the intersection of the C01/C02/C07 spaces) with non-ASCII content x "
